@@ -336,8 +336,6 @@ def holo_compare(out, results, T, scale):
             if o.get('error') != r.words[0]:
                 return 'squash=%s: model err %s; implementation %s' % (nm, r.words[0], o.get('error', 'returned a value'))
             continue
-        if r.raw == 'bad-op' and nm == 'mean' and T == 0:
-            continue
         if not r.ok:
             return 'squash=%s: model answered %s' % (nm, r.raw[:100])
         if 'error' in o:
